@@ -47,4 +47,6 @@ def run(tier, seed):
     ]
     chk.assumptions += ["a missing number value (None) is tolerated by the number-syntax clause"]
     chk.min_obligations = 400
+    chk.standin_on_out_of_reach("native parse corpus", "codec.parse_corpus", {}, always=True,
+                                bound_text="every vector tag x every constrained / required field perturbed (absent, empty, wrong case, foreign vocabulary, python-internal looking) x a child of every kind")
     return chk.finish()
